@@ -69,7 +69,7 @@ DECL_skipSpaces(Parser_skipWhitespaceOutsideText_c, SKIP_SAFE)
 DECL_match(Parser_matchString_c, MATCH_SAFE)
 DECL_match(Parser_matchWordCaseInsensitive_c, MATCH_SAFE)
 DECL_readName(Parser_readName_c, RNAME_SAFE)
-DECL_readUntil(Parser_readUntil_c, UNTIL_SAFE UNTIL_SLICE)
+DECL_readUntil(Parser_readUntil_c, UNTIL_SAFE UNTIL_RANGE)
 DECL_readQuotedValue(Parser_readQuotedValue_c, RQV_SAFE RQV_SLICE)
 DECL_readText(Parser_readText_c, RTEXT_SAFE RTEXT_SLICE)
 void Parser_skipSpaces(Parser *self);
